@@ -22,16 +22,16 @@ theorem block_roundtrip (ri : Nat) (hri : 0 < ri) (hash : Bytes → Nat) (hh : H
     ∃ r, Block.openBlock hash (Block.encode ri hash es) = some r ∧ Block.decodeAll r = es :=
   Kevo.Proofs.Table.block_roundtrip ri hri hash hh es hne hwf hsz
 
-theorem block_iter_all (es : List BEntry) (hk : ∀ e ∈ es, e.key ≠ []) :
+theorem block_iter_all (es : List BEntry) :
     collectB (es.length + 1) ({ es := es } : Block.Iter).first = es :=
-  Kevo.Proofs.Table.block_iter_all es hk
+  Kevo.Proofs.Table.block_iter_all es
 
-theorem block_seek_spec (es : List BEntry) (hasc : Block.strictAsc es = true) (hk : ∀ e ∈ es, e.key ≠ []) (t : Bytes) :
+theorem block_seek_spec (es : List BEntry) (hasc : Block.strictAsc es = true) (t : Bytes) :
     let r := ({ es := es } : Block.Iter).seek t
     match r.1.cur with
     | some e => r.2 = true ∧ r.1.valid = true ∧ e ∈ es ∧ ltB e.key t = false ∧ (∀ e' ∈ es, ltB e'.key t = false → ltB e'.key e.key = false)
     | none => r.2 = false ∧ r.1.valid = false ∧ ∀ e ∈ es, ltB e.key t = true :=
-  Kevo.Proofs.Table.block_seek_spec es hasc hk t
+  Kevo.Proofs.Table.block_seek_spec es hasc t
 
 theorem table_roundtrip (p : Params) (hp : ParamsWF p) (hash fnv : Bytes → Nat) (hh : HashOK hash) (ts : Nat)
     (hts : ts < 2 ^ 64) (bloom : Bool) (es : List BEntry) (hne : es ≠ []) (hasc : Block.strictAsc es = true)
@@ -39,16 +39,16 @@ theorem table_roundtrip (p : Params) (hp : ParamsWF p) (hash fnv : Bytes → Nat
     ∃ r, Table.openTable p hash (Table.encode p hash fnv ts bloom es) = some r ∧ Table.allEntries hash r = some es :=
   Kevo.Proofs.Table.table_roundtrip p hp hash fnv hh ts hts bloom es hne hasc hwf hsz
 
-theorem table_iter_all (es : List BEntry) (hk : ∀ e ∈ es, e.key ≠ []) :
+theorem table_iter_all (es : List BEntry) :
     collectT (es.length + 1) ({ es := es } : Table.TIter).first = es :=
-  Kevo.Proofs.Table.table_iter_all es hk
+  Kevo.Proofs.Table.table_iter_all es
 
-theorem table_seek_spec (es : List BEntry) (hasc : Block.strictAsc es = true) (hk : ∀ e ∈ es, e.key ≠ []) (t : Bytes) :
+theorem table_seek_spec (es : List BEntry) (hasc : Block.strictAsc es = true) (t : Bytes) :
     let r := ({ es := es } : Table.TIter).seek t
     match r.1.cur with
     | some e => r.2 = true ∧ r.1.valid = true ∧ e ∈ es ∧ ltB e.key t = false ∧ (∀ e' ∈ es, ltB e'.key t = false → ltB e'.key e.key = false)
     | none => r.2 = false ∧ r.1.valid = false ∧ ∀ e ∈ es, ltB e.key t = true :=
-  Kevo.Proofs.Table.table_seek_spec es hasc hk t
+  Kevo.Proofs.Table.table_seek_spec es hasc t
 
 theorem table_get_spec (p : Params) (hp : ParamsWF p) (hash fnv : Bytes → Nat) (hh : HashOK hash) (ts : Nat)
     (hts : ts < 2 ^ 64) (bloom : Bool) (es : List BEntry) (hne : es ≠ []) (hasc : Block.strictAsc es = true)
@@ -69,6 +69,20 @@ example : ∀ e ∈ [({ key := [1], val := some [], seq := 3 } : BEntry), { key 
   simp at he
   rcases he with rfl | rfl <;> (unfold EntryWF Kevo.Proofs.Table.EntryWF; simp)
 example : Block.strictAsc [({ key := [1], val := some [], seq := 3 } : BEntry), { key := [2], val := none, seq := 9 }] = true := by
+  decide
+
+/-! non-vacuity with the empty key (a legal key): a list whose FIRST key is `[]` satisfies all hypotheses on entries,
+    the iterator is valid on that entry, and `Seek([])` lands on it. -/
+example : ∀ e ∈ [({ key := [], val := some [7], seq := 1 } : BEntry), { key := [0], val := none, seq := 2 }], EntryWF e := by
+  intro e he
+  simp at he
+  rcases he with rfl | rfl <;> (unfold EntryWF Kevo.Proofs.Table.EntryWF; simp)
+example : Block.strictAsc [({ key := [], val := some [7], seq := 1 } : BEntry), { key := [0], val := none, seq := 2 }] = true := by
+  decide
+example : (({ es := [({ key := [], val := some [7], seq := 1 } : BEntry), { key := [0], val := none, seq := 2 }] } : Block.Iter).first).valid = true := by
+  decide
+example : ((({ es := [({ key := [], val := some [7], seq := 1 } : BEntry), { key := [0], val := none, seq := 2 }] } : Table.TIter).seek []).1.cur)
+    = some { key := [], val := some [7], seq := 1 } := by
   decide
 
 end Kevo.Props.C11
